@@ -73,25 +73,25 @@ add("C06", "model_checking",
     "Every configuration of the stated product (server mode x client kind x suite lists x preference x ClientAuth x client certificate x certificate source x tickets x TLS version x certificate type) is executed with real library endpoints (and Go's crypto/tls as the independent TLS peer in both roles); the model predicts completion, version and suite; both ends' views, exported keying material, peer certificates and delivered bytes are compared; GMSSL wire captures are decoded independently (pre-master secret decrypted with the reference SM2, master secret, key block, Finished, every record).",
     "gmrec/refsm2/refsm3/refsm4 as independent GMSSL decoder; crypto/tls as independent TLS implementation", "DESIGN.md §3 C06")
 add("C07", "fault_enumeration",
-    "fault enumeration by a record-aware man in the middle between two real endpoints: every structural fault and every bit flip at every protected record of a session, layout of the honest session obtained from the independent decoder",
-    "One fault per run from the catalogue (bit flips, truncations/extensions, header rewrites, drop/duplicate/swap/replay, cross-direction and cross-connection records) at every protected record of both directions for both GMSSL suites; what the receiver delivers must be a prefix of what was sent, nothing from the affected record on, and it must end with a fatal error; IV/nonce freshness on honest traffic.",
-    "no keyed scripted peer: faults needing the record keys (valid MAC with chosen padding, wrong sequence number under the right key) are not covered", "DESIGN.md §3 C07")
+    "fault enumeration at every protected record of a session: (a) record-aware man in the middle between two real endpoints (every structural fault and bit flip, layout from the independent decoder); (b) keyed reference peer (independent GM/T 0024 implementation gmref holding the session keys) sending self-protected records: every CBC padding length, every corrupted padding byte under a correct MAC, wrong sequence numbers/types under the right key, reflections, size limits; and authenticating every record the library sends",
+    "One fault per run from the catalogue at every protected record of both directions for both GMSSL suites and both roles; what the receiver delivers must be a prefix of what was sent, nothing from the affected record on, ending with a fatal error (same alert for bad padding and bad MAC); all 256 padding lengths are delivered; every record written by the library for 600+ payload sizes authenticates under the reference with fresh IVs/nonces.",
+    "sequence-number wrap is unreachable; gmref is built on refsm2/refsm3/refsm4 and validated against the library by the control cases", "DESIGN.md §3 C07")
 add("C08", "fault_enumeration",
-    "attacker catalogue enumerated exhaustively: malicious peers expressed through configuration x policies, and a man in the middle editing every byte / dropping / duplicating / splicing / reordering every plaintext handshake message, on GMSSL and on TLS 1.2 against crypto/tls",
-    "Every listed malicious identity against a verifying client, every listed client identity under every ClientAuth policy against a server (acceptance predicted), and every single-byte rewrite and structural edit of every handshake message in transit: the attacked endpoint must abort and never both complete.",
-    "attacks that need a peer recomputing Finished over a non-standard transcript (e.g. omitted ServerKeyExchange) need the scripted reference peer", "DESIGN.md §3 C08")
+    "attacker catalogue enumerated exhaustively: malicious peers expressed through configuration x policies; a man in the middle editing every byte / dropping / duplicating / splicing / reordering every plaintext handshake message, on GMSSL and on TLS 1.2 against crypto/tls; and a keyed scripted peer (independent reference implementation gmref) whose Finished is always consistent so that only the identity proof is wrong",
+    "Every listed malicious identity against a verifying client, every listed client identity under every ClientAuth policy against a server (acceptance predicted), every single-byte rewrite and structural edit of every handshake message in transit, and 50 scripted-server / 40 scripted-client proofs (ServerKeyExchange omitted / by other keys / over other randoms or certificates, CertificateVerify variants, pre-master-secret variants, 18 wrong Finished values): the attacked endpoint must abort and never both complete; genuine identities complete.",
+    "gmref validated against the library by control cases in both roles", "DESIGN.md §3 C08")
 add("C15", "model_checking",
-    "deviation-bounded exploration of scripted handshakes (every single deviation from the honest trace at every message of both directions, end of stream after every record) plus exhaustive first-flight spaces (every hello version 0x0000-0x0400 x suite lists x compression)",
-    "For every server mode and client-auth setting the honest trace is the default and each deviation of a 60-entry catalogue is applied at each message; all ClientHello/ServerHello versions are swept. Never a panic, never an endpoint waiting after end of stream, never completion after a non-conformant deviation.",
-    "deviations are injected in transit (Finished then mismatches); conformant variations are recorded, not judged", "DESIGN.md §3 C15")
+    "deviation-bounded exploration of scripted handshakes: (a) every single deviation from the honest trace injected in transit at every message of both directions, end of stream after every record; (b) a keyed scripted peer (gmref) whose flights are edited - every omission, repetition, swap, insertion and replacement over an alphabet of 13-15 items (thorough: every pair of edits), every length/count field perturbation and truncation with a consistent transcript; (c) exhaustive first-flight spaces (every hello version 0x0000-0x0400 x suite lists x compression)",
+    "For every server mode and client-auth setting the honest trace is the default and each deviation is applied at each message; conformance of an edited sequence is decided by the message grammar of the ECC suites. Never a panic, never an endpoint waiting after end of stream, never completion after a non-conformant sequence or malformed message, always completion of a conformant variant.",
+    "conformant variations (warning alerts, HelloRequest to a client, re-fragmentation) are recorded, not judged", "DESIGN.md §3 C15")
 add("C16", "model_checking",
     "bounded exhaustive exploration of connection/rotation/configuration histories (all operation sequences to depth 3/4 over 13 operations) on real Configs with an LRU client cache, compared with a resumption reference model; fault enumeration over every byte/truncation of a ticket and authentic tickets with altered state",
     "Every history within the depth bound runs on real client and server configurations; the model (key rings, LRU cache entries, policies) predicts MUST/MUST NOT/MAY resume for each connection and the observed DidResume, parameters, exported keys and data are compared; raw replays of a ticket-bearing ClientHello with every ticket byte changed never resume and never crash.",
     "resumption observed through DidResume and the shape of the server's first flight", "DESIGN.md §3 C16")
 
 add("C20", "model_checking",
-    "stateless model checking of goroutine interleavings under a controlled cooperative scheduler with iterative preemption bounding (<=2/3 preemptions), scheduling points at every sync/atomic operation (shims) and at every statement of functions sharing plain memory (AST instrumentation via go build -overlay); separate free-running pass under the race detector",
-    "For each small colliding scenario every schedule within the preemption bound is executed on the real code and every thread's result is compared with the sequential outcome (deadlock and step-budget detection included); the same and larger bodies (shared Config with key rotation, client cache, one Conn with concurrent Write/Read/Close/Handshake, CertPool, package-level calls) run free under -race and every reported race is a violation.",
+    "stateless model checking of goroutine interleavings under a controlled cooperative scheduler with iterative preemption bounding (<=2/3 preemptions), scheduling points at every sync/atomic operation (shims) and at every statement of functions sharing plain memory (AST instrumentation via go build -overlay), including gmtls connections over an in-memory transport whose blocking is a scheduler wait; separate free-running pass under the race detector",
+    "For each small colliding scenario (shared cipher objects incl. first use, package-level calls, BER parser, and on gmtls: Write/Write(/Write), Read/Write, Read/Read, Write/Close on one connection, Handshake/Handshake, two connections sharing their Configs with key rotation) every schedule within the bound is executed on the real code and the results are compared with the sequential outcomes (deadlock and step-budget detection included); the same and larger bodies run free under -race.",
     "scheduling points only where instrumented; races elsewhere are found by the -race pass, which is a dynamic detector over the executed bodies", "DESIGN.md §3 C20")
 
 NA_REASON = "check not built yet in this session (work in progress; DESIGN.md §3 describes the planned bounded exhaustive check)"
